@@ -269,7 +269,7 @@ class C15(Check):
     design_ref = 'DESIGN.md 3.9'
     runs = {'quick': 1200, 'thorough': 20000}
     shrink_lists = (('ops',), ('config', 'stack'))
-    hashseeds = {'quick': ['1:O'], 'thorough': ['1:O', 2]}
+    hashseeds = {'quick': ['1:OA'], 'thorough': ['1:OA', 2]}
     rule = ('a scenario application producing every response kind (Response small/large/compressible/random/empty/streamed, '
             'rendered context, redirect, raised/returned 4xx/5xx, non-breaking errors, uncaught exception, '
             'unknown URL, wrong method, HEAD) is built twice: bare and with a random stack of 1-6 built-in middlewares in default '
